@@ -40,8 +40,7 @@ Definition with_mark (g : gc) (m : tmap bool) : gc :=
      g_mark := m; g_w := g_w g; g_l0 := g_l0 g; g_l1 := g_l1 g |}.
 
 (* gc_new: mem[0].next = 0; mem[i].next = i+1 for 1 <= i < size; then mem[size-1].next = 0;
-   free = 1.  (With size = 1 the C code leaves free = 1 pointing outside the table; the
-   model is only used for size >= 2, which is what vm_new callers pass.) *)
+   free = 1 if size > 1 else 0 (a heap of one cell has only nil). *)
 Fixpoint init_next (n : nat) (i : N) (m : tmap N) : tmap N :=
   match n with
   | O => m
@@ -51,7 +50,7 @@ Fixpoint init_next (n : nat) (i : N) (m : tmap N) : tmap N :=
 Definition gc_new (size : N) : gc :=
   let nx := init_next (N.to_nat (size - 1)) 1 (tm_init 0) in
   let nx := tset nx (size - 1) 0 in
-  {| g_free := 1; g_size := size; g_obj := tm_init None; g_next := nx;
+  {| g_free := (if 1 <? size then 1 else 0); g_size := size; g_obj := tm_init None; g_next := nx;
      g_mark := tm_init false; g_w := false; g_l0 := []; g_l1 := [] |}.
 
 (* gc_alloc_any: None = "out of memory" (free == 0), reported before any write *)
